@@ -60,6 +60,9 @@ def run(ctx: core.Ctx):
             its = " ".join(core.rs(h) for h, _ in root["iters"])
             lines.append(f"size {core.rs(root['f_lower'])} {core.rs(root['f_upper'])} {core.rs(root['lower'])} {core.rs(root['upper'])} {core.rs(root['result'])} {core.rs(cfg.get('nominal_height', 96.0))} {its}".strip())
             owners.append(i)
+        for chk in r.get("eval_checks", []):
+            if abs(chk["logged"] - chk["fresh"]) > 1e-6 * max(1.0, abs(chk["fresh"])):
+                ctx.finding("search-log-row-not-the-field-at-that-height", f"{g}: search-log excess {chk['logged']:.6f} for field {chk['idx']} at H={chk['h']} vs {chk['fresh']:.6f} from a fresh evaluation", {**rep, "evaluation": chk})
         esc = designlib.is_escape(r)
         ctx.count(f"outcome:{kind}{':escape' if esc else ''}")
         ctx.count(f"method:{g}")
